@@ -203,3 +203,181 @@ def router_identity_gate(h):
                 h.check(not deliverable, "c11.gate.message-of-a-finalized-connection-withheld",
                         f"recv reported {r.f[0].vname} although pipe(s) {deliverable} are finalized and have messages waiting {[[hex(x) for x in arrived[p]] for p in deliverable]}")
                 h.cover("c11.gate.wouldblock-while-pending", any(arrived[p] for p in (0, 1)))
+
+
+def router_recv_blocking(h):
+    """RouterSocket::recv_logical_finalized in blocking / timed mode (coroutine MIR; the loop around a biased
+    tokio::select! over the identity-finalized Notify, the ingress engine's pop and the RCVTIMEO deadline), real
+    AddressedIngressEngine, two connections. History of k events from {a message arrives on connection 0/1, the identity
+    of connection 0/1 is finalized, the pending call is polled (a call is started if none is pending), the pending call
+    is dropped, the clock passes the deadline and the call is polled}. The clock is a sequence of symbolic
+    non-decreasing instants read by Instant::now() and by every arming of a timer; sleep_until / sleep record what
+    they were armed with.
+    Checked: (C11) only messages of finalized connections are returned, per connection in arrival order;
+    (C09) after any number of dropped calls every message that arrived is still returned exactly once;
+    (C14) the call arms its timer so that it expires RCVTIMEO after the call started - whatever happens in between -
+    and no timer at all for RCVTIMEO -1; when the deadline has passed the call returns Timeout (or a message)."""
+    from .d_c09 import Fut
+    from ..models import some, none, MapV, dur_ns, instant_ns, _deref
+    from .d_c02 import _mk_msg, _tag
+    from .d_c07 import _frames
+    prog = h.it.prog
+    k = h.params.get("ops", 4)
+    W = 128
+    family = h.params.get("family")            # the same exploration is registered under C11, C09 and C14: each reports its own clause
+    real_check, real_cover = h.check, h.cover
+    def check(cond, role, detail=""):
+        if family is None or role.startswith(family) or ".setup-" in role:
+            return real_check(cond, role, detail)
+        return True
+    def cover(role, cond=True):
+        if family is None or role.startswith(family):
+            return real_cover(role, cond)
+    eng = Ref(Cell(h.method(AIE2, "new", max(4, k)), "ingress"), ())
+    senders = [Ref(Cell(h.method(AIE2, "register_pipe", eng, p, max(4, k), 1), f"s{p}"), ()) for p in range(2)]
+    fields = prog.struct_fields(ROUTER)
+    vals = {"ingress_engine": eng.load(), "pipe_finalized": BoxV(Cell(MapV("HashMap", []), "finalized"), ()),
+            "held_ingress": Agg("{lock}", [MapV("HashMap", [])]), "held_count": Agg("{atomic}", [0]),
+            "identity_finalized_notify": BoxV(Cell(Agg("{notify}", [0, False]), "notify"), ())}
+    sock = Ref(Cell(Agg(ROUTER, [vals.get(f, Opaque(f)) for f in fields]), "router"), ())
+    check(all(f in fields for f in vals), "c11.gate.setup-fields", str([f for f in vals if f not in fields]))
+    timed = h.choose(2, "rcvtimeo_positive") == 1
+    d = None
+    if timed:
+        d = h.bvar("rcvtimeo_ns", W)
+        h.assume(z3.And(z3.UGT(d, 0), z3.ULE(d, z3.BitVecVal(2147483647 * 1_000_000, W))))
+    clock = {"last": None, "n": 0}
+    def tick():
+        t = h.bvar(f"t{clock['n']}", W)
+        clock["n"] += 1
+        h.assume(z3.ULE(t, z3.BitVecVal(1 << 70, W)))
+        if clock["last"] is not None:
+            h.assume(z3.UGE(t, clock["last"]))
+        clock["last"] = t
+        return t
+    st = {"fire": False, "armed": [], "t_call": None}
+    def sleep_until_fn(it, args, dty, func):
+        st["armed"].append(("until", bv(_deref(args[0]).f[0], W) if not isinstance(args[0], Agg) else bv(args[0].f[0], W)))
+        return Agg("{sleep}", [])
+    def sleep_fn(it, args, dty, func):
+        now = tick()
+        if st["t_call"] is None:
+            st["t_call"] = now
+        st["armed"].append(("for", simp(now + bv(args[0].f[0], W))))
+        return Agg("{sleep}", [])
+    h.it.hooks["tokio::time::sleep_until"] = sleep_until_fn
+    h.it.hooks["tokio::time::sleep"] = sleep_fn
+    def extern(it, plain, args, dty, func):
+        if plain.startswith("tokio::time::sleep_until"):
+            return sleep_until_fn(it, args, dty, func)
+        if plain.startswith("tokio::time::sleep"):
+            return sleep_fn(it, args, dty, func)
+        if plain in ("tokio::time::Instant::now", "std::time::Instant::now"):
+            t = tick()
+            if st["t_call"] is None:
+                st["t_call"] = t
+            return instant_ns(t)
+        if plain.startswith("std::future::pending"):
+            return Agg("{pending}", [])
+        if plain.endswith("Future>::poll"):
+            fut = _deref(args[0])
+            if isinstance(fut, Agg) and fut.ty == "{sleep}":
+                return Enum("std::task::Poll", 0, "Ready", [UNIT]) if st["fire"] else Enum("std::task::Poll", 1, "Pending", [])
+            if isinstance(fut, Agg) and fut.ty == "{pending}":
+                return Enum("std::task::Poll", 1, "Pending", [])
+            return NotImplemented
+        if plain.endswith("IntoFuture>::into_future") or plain.startswith("std::pin::Pin::"):
+            return args[0]
+        return NotImplemented
+    h.it.extern = extern
+    h.panic_role = "c11.router-recv"
+    arrived = {0: [], 1: []}
+    finalized = set()
+    nxt = {0: 0x10, 1: 0x20}
+    fut = None
+    dropped = 0
+    def start():
+        st["armed"], st["t_call"], st["fire"] = [], None, False
+        return Fut(h, ROUTER, "recv_logical_finalized", [sock, some(dur_ns(d)) if timed else none()])
+    def judge(r):
+        """a completed call"""
+        if r.idx == 0:
+            pid, batch = r.f[0].f[0], r.f[0].f[1]
+            tag = _tag(_frames(batch)[0])
+            check(pid in finalized, "c11.router-recv.message-delivered-before-the-identity-of-its-connection-was-final", f"pipe {pid}, finalized {sorted(finalized)}")
+            check(bool(arrived.get(pid)) and arrived[pid][0] == tag, "c09.router-recv.message-lost-duplicated-or-out-of-order",
+                    f"pipe {pid}: returned {hex(tag) if isinstance(tag, int) else tag}, oldest undelivered {[hex(x) for x in arrived.get(pid, [])]} ({dropped} call(s) dropped before)")
+            if arrived.get(pid) and arrived[pid][0] == tag:
+                arrived[pid].pop(0)
+            cover("c11.router-recv.delivered")
+    def check_timers():
+        if not timed:
+            check(not st["armed"], "c14.router-recv.timer-armed-although-rcvtimeo-is-infinite")
+            return
+        for kind, expiry in st["armed"]:
+            check(st["t_call"] is not None and expiry == simp(st["t_call"] + d), "c14.router-recv.timer-does-not-expire-rcvtimeo-after-the-call-started",
+                    f"armed by {'sleep_until' if kind == 'until' else 'sleep'}: expiry differs from (start of the call + RCVTIMEO); {len(st['armed'])} arming(s) so far")
+    for i in range(k):
+        op = h.choose(7, f"op{i}")
+        if op in (0, 1):
+            p = op
+            tag = nxt[p]
+            nxt[p] += 1
+            fb = Ref(Cell(h.method("message::FrameBatch", "new"), "fb"), ())
+            h.method("message::FrameBatch", "push", fb, _mk_msg(h, tag, False))
+            check(h.method(PMS, "try_send_sync", senders[p], fb.load()).idx == 0, "c11.gate.setup-enqueue")
+            arrived[p].append(tag)
+        elif op in (2, 3):
+            h.method(ROUTER, "finalize_pipe", sock, op - 2)
+            finalized.add(op - 2)
+        elif op == 4:
+            if fut is None:
+                fut = start()
+            r = fut.poll()
+            check_timers()
+            if r is not None:
+                judge(r)
+                check(r.idx == 0 or not st["fire"] or r.f[0].vname == "Timeout", "c14.router-recv.wrong-error", repr(r)[:80])
+                fut = None
+            else:
+                deliverable = [p for p in finalized if arrived[p]]
+                check(not deliverable, "c11.router-recv.parked-although-a-finalized-connection-has-a-message", str(deliverable))
+                cover("c11.router-recv.parked")
+        elif op == 5:
+            if fut is None:
+                from ..interp import PathAbort
+                raise PathAbort("no pending call to drop")
+            fut.cancel()
+            fut = None
+            dropped += 1
+            cover("c09.router-recv.dropped-a-pending-call")
+        else:
+            if fut is None or not timed or not st["armed"]:
+                from ..interp import PathAbort
+                raise PathAbort("no armed timer to elapse")
+            st["fire"] = True
+            r = fut.poll()
+            check(r is not None, "c14.router-recv.still-parked-after-the-deadline-passed")
+            if r is not None:
+                judge(r)
+                check(r.idx == 0 or r.f[0].vname == "Timeout", "c14.router-recv.elapsed-call-did-not-fail-with-timeout", repr(r)[:80])
+                cover("c14.router-recv.timed-out", r.idx == 1)
+            fut = None
+    # epilogue: drop what is pending, finalize both connections, read everything without blocking
+    if fut is not None:
+        fut.cancel()
+        dropped += 1
+    for p in (0, 1):
+        if p not in finalized:
+            h.method(ROUTER, "finalize_pipe", sock, p)
+            finalized.add(p)
+    zero = some(dur_ns(0))
+    for _ in range(sum(len(v) for v in arrived.values()) + 1):
+        f2 = Fut(h, ROUTER, "recv_logical_finalized", [sock, clone_val(zero)])
+        r2 = f2.poll()
+        if r2 is None or r2.idx != 0:
+            break
+        judge(r2)
+    left = {p: [hex(x) for x in v] for p, v in arrived.items() if v}
+    check(not left, "c09.router-recv.message-lost-after-a-dropped-recv" if dropped else "c11.router-recv.message-never-delivered",
+            f"never returned: {left} ({dropped} call(s) dropped)")
